@@ -6,6 +6,7 @@ import (
 	"fmt"
 	"os"
 	"path/filepath"
+	"strings"
 
 	"verifharness/core"
 	"verifharness/props/c11"
@@ -25,7 +26,7 @@ var drivers = map[string]runner{
 	"C09": conv.RunC09,
 	"C10": conv.RunC10,
 	"C11": c11.Run,
-	"C12": c12.Run,
+	"C12": runC12,
 	"C13": ws.RunFor("C13"),
 	"C14": ws.RunFor("C14"),
 	"C15": ws.RunFor("C15"),
@@ -41,6 +42,33 @@ var drivers = map[string]runner{
 	"C08": pipe.RunC08,
 	"C17": pipe.RunC17,
 	"C18": pipe.RunC18,
+}
+
+// C12 = the HTTP client's classification (props/c12) + the generated helper's part (props/rt).
+func runC12(tier string, seed int64, out string, replay string) (*core.Result, error) {
+	helperReplay := false
+	if replay != "" {
+		if data, err := os.ReadFile(replay); err == nil && strings.Contains(string(data), "\"helper_leg\"") {
+			helperReplay = true
+		}
+	}
+	var res *core.Result
+	var err error
+	if helperReplay {
+		res = core.NewResult("C12", tier, seed)
+	} else {
+		res, err = c12.Run(tier, seed, out, replay)
+		if err != nil {
+			return nil, err
+		}
+		if replay != "" {
+			return res, nil
+		}
+	}
+	if err := rt.HelperLegC12(res, tier, seed, out, map[bool]string{true: replay, false: ""}[helperReplay]); err != nil {
+		return nil, err
+	}
+	return res, nil
 }
 
 func main() {
